@@ -215,6 +215,9 @@ theorem elem_workStep (env : Env) (hE : EnvOk env) (pruning : Int) (sv : Service
     (h : ElemStorable sv) (hh : Storable host = true) (hg : Genuine dgram) :
     ElemStorable (workStep env pruning sv host dgram now).sv := by
   unfold workStep
+  by_cases hov : env.loadOverflows dgram = true
+  · rw [if_pos hov]; exact h
+  rw [if_neg hov]
   cases hl : load dgram with
   | error e => exact h
   | ok v =>
@@ -380,6 +383,9 @@ theorem bounded_callCmd (env : Env) (pruning : Int) (sv : Services) (host : Val)
 theorem bounded_workStep (env : Env) (pruning : Int) (sv : Services) (host : Val) (dgram : Bytes) (now : Int)
     (k : Nat) (h : Bounded k sv) : Bounded (k + 1) (workStep env pruning sv host dgram now).sv := by
   unfold workStep
+  by_cases hov : env.loadOverflows dgram = true
+  · rw [if_pos hov]; exact bounded_succ k sv h
+  rw [if_neg hov]
   cases load dgram with
   | error e => exact bounded_succ k sv h
   | ok v =>
@@ -406,23 +412,29 @@ theorem bounded_workStep (env : Env) (pruning : Int) (sv : Services) (host : Val
             · exact bounded_succ k sv h
       · exact bounded_succ k sv h
 
-/-! ### the loop never dies -/
+/-! ### the loop never dies, and what it stores can always be sent back -/
 
 /-- the hosts the transport reports are text `brine.dump` accepts, the datagrams are genuine byte strings -/
 def EventsOk (evs : List Event) : Prop := ∀ e ∈ evs, Storable e.host = true ∧ Genuine e.dgram
 
-theorem allAlive_of (env : Env) (hE : EnvOk env) (pruning : Int) : ∀ (evs : List Event) (st : St) (k : Nat),
+/-- every iteration of every history leaves the loop running -/
+theorem allAlive_all (env : Env) (pruning : Int) : ∀ (evs : List Event) (st : St), allAlive env pruning st evs = true
+  | [], _ => rfl
+  | e :: es, st => by
+    simp only [allAlive, stepEvent, workStep_alive, Bool.true_and]
+    exact allAlive_all env pruning es _
+
+/-- after any history of genuine datagrams everything stored can be dumped again, and no name has 2^32 servers -/
+theorem run_storable (env : Env) (hE : EnvOk env) (pruning : Int) : ∀ (evs : List Event) (st : St) (k : Nat),
     Inv st.sv → ElemStorable st.sv → Bounded k st.sv → EventsOk evs → k + evs.length < 2 ^ 32 →
-    allAlive env pruning st evs = true
-  | [], _, _, _, _, _, _, _ => rfl
+    SvStorable (run env pruning st evs).sv
+  | [], st, k, _, hs, hb, _, hk => fun x hx => ⟨Nat.lt_of_le_of_lt (hb x hx) (by simp at hk; omega), hs x hx⟩
   | e :: es, st, k, hi, hs, hb, hev, hk => by
     obtain ⟨hh, hg⟩ := hev e (by simp)
     simp only [List.length_cons] at hk
-    have hst : SvStorable st.sv := fun x hx => ⟨Nat.lt_of_le_of_lt (hb x hx) (by omega), hs x hx⟩
-    have ha := workStep_alive env pruning st.sv e.host e.dgram e.now hi hst
     have g := workStep_good env pruning st.sv e.host e.dgram e.now hi
-    simp only [allAlive, stepEvent, ha, Bool.true_and]
-    exact allAlive_of env hE pruning es _ (k + 1) g.inv
+    simp only [run]
+    exact run_storable env hE pruning es _ (k + 1) g.inv
       (elem_workStep env hE pruning st.sv e.host e.dgram e.now hs hh hg)
       (bounded_workStep env pruning st.sv e.host e.dgram e.now k hb)
       (fun x hx => hev x (by simp [hx])) (by omega)
